@@ -34,6 +34,8 @@ structure LInWF (ko : KeyOps) (s : LInScope) : Prop where
   nwu : OptP (fun t => WF t ∧ Fits (LTx.ser t)) s.nonWitnessUtxo
   wu : OptP (fun o => WFOut o ∧ o.witness = {} ∧ Fits (LTxOut.ser o)) s.witnessUtxo
   lf : ∀ e ∈ s.lf, lenOK e.1.len e.2 = true ∧ Fits e.2
+  /-- (since fix `d53`) the scope keeps no peg-in flag / issuance of a global transaction beside its fields -/
+  txparts : s.isPegin = false ∧ s.txIssuance = none
 
 /-- the liquid table in the order `write_to` uses -/
 def Model.LInScope.normLf (lf : List (LInField × Bytes)) : List (LInField × Bytes) :=
@@ -306,7 +308,9 @@ theorem LInScope.addPairs_pairs (ko : KeyOps) (version : Option Nat) (s : LInSco
   rw [hpairs]
   refine LInScope.bind_step step1 (LInScope.bind_step step2 (LInScope.bind_step step3 (LInScope.bind_step step4 ?_)))
   rw [step5]
-  simp only [LInScope.norm, LInScope.normLf, sd3, List.nil_append, InScope.typed]
+  have sd5 : (LInScope.seedOf version s).isPegin = s.isPegin ∧ (LInScope.seedOf version s).txIssuance = s.txIssuance := by
+    rw [h.txparts.1, h.txparts.2]; unfold LInScope.seedOf; split <;> exact ⟨rfl, rfl⟩
+  simp only [LInScope.norm, LInScope.normLf, sd3, List.nil_append, InScope.typed, sd5.1, sd5.2]
 
 /-! ### output scopes (PSETv2) -/
 
@@ -319,6 +323,8 @@ structure LOutWF (ko : KeyOps) (s : LOutScope) : Prop where
     ((isLiquidKey kv.1 = false ∧ unkKeyOut kv.1 = true) ∨ (isLiquidKey kv.1 = true ∧ LOutField.ofKey kv.1 = none))
   unknownNodup : (s.base.unknown.map Prod.fst).Nodup
   lf : ∀ e ∈ s.lf, lenOK e.1.len e.2 = true ∧ Fits e.2
+  /-- (since fix `d53`) the scope keeps no nonce of a global transaction beside its fields -/
+  txNonce : s.txNonce = none
 
 def Model.LOutScope.normLf (lf : List (LOutField × Bytes)) : List (LOutField × Bytes) :=
   LOutField.order.filterMap (fun f => (lget lf f).map (fun v => (f, v)))
@@ -446,10 +452,12 @@ theorem LOutScope.addPairs_pairs (ko : KeyOps) (s : LOutScope) (h : LOutWF ko s)
   refine LOutScope.bind_step step3 (LOutScope.bind_step step4 ?_)
   rw [step5]
   have hc := h.valueConf
+  have hn := h.txNonce
   cases s with
-  | mk base vc lf =>
-    simp only at hc
+  | mk base vc lf tn =>
+    simp only at hc hn
     subst hc
+    subst hn
     simp only [LOutScope.norm, LOutScope.normLf, List.nil_append, OutScope.typed]
 
 /-! ### every pair `write_to` emits fits the key-value framing -/
